@@ -25,10 +25,84 @@ def _one(t):
 
 
 class Frac:
+    """Rational-function normal form with *factored* denominators.
+
+    value(t) = coef · core · Π NF / Π DF   where NF/DF are multisets of atomic factor terms.
+    Keeping denominators factored lets sums use the least common multiple, which keeps the degree of
+    the final cross-multiplied identity low (deep compositions such as GRU, softmax, batchnorm)."""
+
     def __init__(self):
         self.memo = {}
+        self.pair = {}
+        self.atoms = {}
 
-    def frac(self, t):
+    # -- multiset helpers (dict uid -> (term, power))
+    @staticmethod
+    def _madd(a, b):
+        r = dict(a)
+        for k, (t, p) in b.items():
+            if k in r:
+                r[k] = (t, r[k][1] + p)
+            else:
+                r[k] = (t, p)
+        return r
+
+    @staticmethod
+    def _msub(a, b):
+        """a - b (powers), assumes b <= a"""
+        r = {}
+        for k, (t, p) in a.items():
+            q = p - (b[k][1] if k in b else 0)
+            if q > 0:
+                r[k] = (t, q)
+        return r
+
+    @staticmethod
+    def _mmin(a, b):
+        r = {}
+        for k, (t, p) in a.items():
+            if k in b:
+                r[k] = (t, min(p, b[k][1]))
+        return r
+
+    @staticmethod
+    def _mmax(a, b):
+        r = dict(a)
+        for k, (t, p) in b.items():
+            if k in r:
+                r[k] = (t, max(p, r[k][1]))
+            else:
+                r[k] = (t, p)
+        return r
+
+    @staticmethod
+    def _mprod(m):
+        r = c(1)
+        for k in sorted(m):
+            t, p = m[k]
+            for _ in range(p):
+                r = tm.mul(r, t)
+        return r
+
+    def _norm(self, coef, core, NF, DF):
+        if coef == 0 or tm.is_zero(core):
+            return (Fraction(0), c(1), {}, {})
+        if core.op == "c":
+            coef = coef * core.val
+            core = c(1)
+        if core.op == "neg":
+            coef = -coef
+            core = core.args[0]
+        com = self._mmin(NF, DF)
+        if com:
+            NF = self._msub(NF, com)
+            DF = self._msub(DF, com)
+        return (coef, core, NF, DF)
+
+    def _leaf_factor(self, t):
+        return (Fraction(1), c(1), {t.uid: (t, 1)}, {})
+
+    def nf(self, t):
         memo = self.memo
         for n in tm.postorder([t]):
             if n.uid in memo or n.sort == "B":
@@ -36,37 +110,84 @@ class Frac:
             memo[n.uid] = self._f(n)
         return memo[t.uid]
 
+    def _expand(self, x, mult):
+        """term for coef·core·ΠNF·Πmult (unexpanded product)"""
+        coef, core, NF, _ = x
+        r = tm.mul(core, self._mprod(self._madd(NF, mult)))
+        if coef != 1:
+            r = tm.mul(c(coef), r)
+        return r
+
+    def _addsub(self, x, y, sign):
+        if x[0] == 0:
+            return y if sign > 0 else (-y[0], y[1], y[2], y[3])
+        if y[0] == 0:
+            return x
+        L = self._mmax(x[3], y[3])
+        G = self._mmin(x[2], y[2])
+        xa = (x[0], x[1], self._msub(x[2], G), None)
+        ya = (y[0], y[1], self._msub(y[2], G), None)
+        tx = self._expand(xa, self._msub(L, x[3]))
+        ty = self._expand(ya, self._msub(L, y[3]))
+        core = tm.add(tx, ty) if sign > 0 else tm.sub(tx, ty)
+        return self._norm(Fraction(1), core, G, L)
+
     def _f(self, n):
         op = n.op
-        if op in ("c", "v"):
-            return (n, c(1))
         m = self.memo
-        if op in ("+", "-"):
-            (a, b), (x, y) = m[n.args[0].uid], m[n.args[1].uid]
-            f = tm.add if op == "+" else tm.sub
-            if b is y:
-                return (f(a, x), b)
-            if _one(y):
-                return (f(a, tm.mul(x, b)), b)
-            if _one(b):
-                return (f(tm.mul(a, y), x), y)
-            return (f(tm.mul(a, y), tm.mul(x, b)), tm.mul(b, y))
+        if op == "c":
+            return (n.val, c(1), {}, {})
+        if op == "v":
+            return self._leaf_factor(n)
+        if op == "+":
+            return self._addsub(m[n.args[0].uid], m[n.args[1].uid], +1)
+        if op == "-":
+            return self._addsub(m[n.args[0].uid], m[n.args[1].uid], -1)
         if op == "neg":
-            a, b = m[n.args[0].uid]
-            return (tm.neg(a), b)
+            x = m[n.args[0].uid]
+            return (-x[0], x[1], x[2], x[3])
         if op == "*":
-            (a, b), (x, y) = m[n.args[0].uid], m[n.args[1].uid]
-            return (tm.mul(a, x), tm.mul(b, y))
+            x, y = m[n.args[0].uid], m[n.args[1].uid]
+            return self._norm(x[0] * y[0], tm.mul(x[1], y[1]), self._madd(x[2], y[2]), self._madd(x[3], y[3]))
         if op == "/":
-            (a, b), (x, y) = m[n.args[0].uid], m[n.args[1].uid]
-            return (tm.mul(a, y), tm.mul(b, x))
+            x, y = m[n.args[0].uid], m[n.args[1].uid]
+            if y[0] == 0:
+                raise ZeroDivisionError("division by a term that normalises to zero")
+            invN = dict(y[3])
+            invD = dict(y[2])
+            if not _one(y[1]):
+                invD = self._madd(invD, {y[1].uid: (y[1], 1)})
+            for k, (t, p) in invD.items():
+                self.atoms[k] = t
+            return self._norm(x[0] / y[0], x[1], self._madd(x[2], invN), self._madd(x[3], invD))
         if op == "ite":
             cnd = self.cond(n.args[0])
-            (a, b), (x, y) = m[n.args[1].uid], m[n.args[2].uid]
-            if b is y:
-                return (tm.ite(cnd, a, x), b)
-            return (tm.ite(cnd, a, x), tm.ite(cnd, b, y))
-        raise NotImplementedError("frac of %s (UFs must be abstracted first)" % op)
+            x, y = m[n.args[1].uid], m[n.args[2].uid]
+            L = self._mmax(x[3], y[3])
+            G = self._mmin(x[2], y[2])
+            tx = self._expand((x[0], x[1], self._msub(x[2], G), None), self._msub(L, x[3]))
+            ty = self._expand((y[0], y[1], self._msub(y[2], G), None), self._msub(L, y[3]))
+            return self._norm(Fraction(1), tm.ite(cnd, tx, ty), G, L)
+        raise NotImplementedError("normal form of %s (UFs must be abstracted first)" % op)
+
+    # -- (num, den) as plain terms
+    def frac(self, t):
+        r = self.pair.get(t.uid)
+        if r is None:
+            x = self.nf(t)
+            num = tm.mul(x[1], self._mprod(x[2]))
+            if x[0] != 1:
+                num = tm.mul(c(x[0]), num)
+            r = (num, self._mprod(x[3]))
+            self.pair[t.uid] = r
+        return r
+
+    def differs(self, a, b):
+        """condition: a != b (given all denominator factors non-zero)"""
+        x = self._addsub(self.nf(a), self.nf(b), -1)
+        if x[0] == 0:
+            return tm.false()
+        return tm.ne(tm.mul(x[1], self._mprod(x[2])), c(0))
 
     def cond(self, t):
         """division-free version of a condition (all denominators are asserted non-zero elsewhere)"""
@@ -78,17 +199,19 @@ class Frac:
         if op in ("true", "false", "bv"):
             r = t
         elif op in ("<", "<=", "=="):
-            (a, b) = self.frac(t.args[0])
-            (x, y) = self.frac(t.args[1])
-            if _one(b) and _one(y):
-                r = tm._cmp(op, a, x)
+            x = self._addsub(self.nf(t.args[0]), self.nf(t.args[1]), -1)
+            if x[0] == 0:
+                r = tm.true() if op in ("<=", "==") else tm.false()
             else:
-                diff = tm.sub(tm.mul(a, y), tm.mul(x, b))
+                num = tm.mul(x[1], self._mprod(x[2]))
+                if x[0] < 0:
+                    num = tm.neg(num)
                 if op == "==":
-                    r = tm.eq(diff, c(0))
+                    r = tm.eq(num, c(0))
                 else:
-                    den = b if _one(y) else (y if _one(b) else tm.mul(b, y))
-                    r = tm._cmp(op, tm.mul(diff, den), c(0))
+                    # sign(num/den) = sign(num * Π odd-power den factors)
+                    odd = {k: (tt, 1) for k, (tt, p) in x[3].items() if p % 2 == 1}
+                    r = tm._cmp(op, tm.mul(num, self._mprod(odd)), c(0))
         elif op == "not":
             r = tm.not_(self.cond(t.args[0]))
         elif op == "and":
@@ -101,16 +224,7 @@ class Frac:
         return r
 
     def denominators(self):
-        seen = set()
-        out = []
-        for k, v in self.memo.items():
-            if isinstance(k, tuple):
-                continue
-            d = v[1]
-            if not d.op == "c" and d.uid not in seen:
-                seen.add(d.uid)
-                out.append(d)
-        return out
+        return [self.atoms[k] for k in sorted(self.atoms)]
 
 
 # ------------------------------------------------------------------ UF abstraction
@@ -142,6 +256,88 @@ class Abstraction:
             else:
                 m[n.uid] = tm.rebuild(n, na)
         return [m[r.uid] for r in roots]
+
+    def reduce(self, fr):
+        """eliminate exp/log applications that are products/quotients of earlier ones.
+
+        Candidates are found numerically at a pseudo-random point, then *proved* by a lemma query
+        (linear identity between the abstracted arguments, no assumptions); only proven relations are
+        used, as substitutions  v_k := v_i^{±1} · v_j^{±1} · S^{±1}.  Returns {uid: replacement}."""
+        if not hasattr(self, "sub"):
+            self.sub = {}
+            self._reduced = 0
+            self.lemmas = 0
+        apps = self.apps
+        if self._reduced >= len(apps):
+            return self.sub
+        num = self._numeric_args()
+
+        def close(a, b):
+            return a is not None and b is not None and abs(a - b) <= 1e-9 * max(1.0, abs(a), abs(b))
+
+        def arg(i):
+            return apps[i][1][0]
+
+        def prove(lhs, rhs):
+            self.lemmas += 1
+            (n1, d1), (n2, d2) = fr.frac(lhs), fr.frac(rhs)
+            cond = tm.eq(tm.mul(n1, d2), tm.mul(n2, d1))
+            if cond.op == "true":
+                return True
+            sl = z3.Solver()
+            sl.set("timeout", 1500)
+            sl.add(z3.Not(tm.to_z3(cond)))
+            return sl.check() == z3.unsat
+
+        def val(i):  # current representation of app i
+            return self.sub.get(apps[i][2].uid, apps[i][2])
+
+        for k in range(self._reduced, len(apps)):
+            f = apps[k][0]
+            if f != "exp" or num[k][0] is None:
+                continue
+            ak = num[k][0]
+            earlier = [i for i in range(k) if apps[i][0] == "exp" and num[i][0] is not None]
+            logs = [i for i in range(len(apps)) if apps[i][0] == "log" and num[i][1] is not None and i != k]
+            done = False
+            one = c(1)
+            cands = []
+            for i in earlier:
+                cands.append((num[i][0], arg(i), val(i)))
+                cands.append((-num[i][0], tm.neg(arg(i)), tm.div(one, val(i))))
+            for l in logs:
+                # exp(±log S) = S^{±1}; only if the log's argument does not itself contain app k
+                S = apps[l][1][0]
+                if apps[k][2].uid in {t.uid for t in tm.postorder([S])}:
+                    continue
+                cands.append((num[l][1], apps[l][2], S))
+                cands.append((-num[l][1], tm.neg(apps[l][2]), tm.div(one, S)))
+            for (v1, a1, r1) in cands:
+                if close(ak, v1) and prove(arg(k), a1):
+                    self.sub[apps[k][2].uid] = r1
+                    done = True
+                    break
+            if done:
+                continue
+            for x in range(len(cands)):
+                if done:
+                    break
+                for y in range(x):
+                    (v1, a1, r1), (v2, a2, r2) = cands[x], cands[y]
+                    if close(ak, v1 + v2) and prove(arg(k), tm.add(a1, a2)):
+                        self.sub[apps[k][2].uid] = tm.mul(r1, r2)
+                        done = True
+                        break
+        # log(exp-var) = its argument
+        for k in range(self._reduced, len(apps)):
+            if apps[k][0] != "log":
+                continue
+            S = apps[k][1][0]
+            for i in range(len(apps)):
+                if apps[i][0] == "exp" and S is apps[i][2]:
+                    self.sub[apps[k][2].uid] = arg(i)
+        self._reduced = len(apps)
+        return self.sub
 
     def _numeric_args(self):
         """(value of first argument, value of the application) of every app at a fixed pseudo-random point"""
@@ -410,27 +606,24 @@ def solve(conds, timeout_ms=10000, want_model=True, nice_vars=None, use_cvc5=Tru
 
 
 def _cvc5_check(z3solver, timeout_ms):
-    try:
-        import cvc5
-    except Exception:
-        return "unknown"
+    """second opinion: the same SMT-LIB text to cvc5 (wheel), in a child process with a hard time limit"""
+    import os
+    import subprocess
+    import sys
+
     try:
         text = z3solver.to_smt2()
-        tmgr = cvc5.TermManager() if hasattr(cvc5, "TermManager") else None
-        slv = cvc5.Solver(tmgr) if tmgr is not None else cvc5.Solver()
-        slv.setOption("tlimit-per", str(int(timeout_ms)))
-        slv.setLogic("QF_NRA")
-        parser = cvc5.InputParser(slv)
-        parser.setStringInput(cvc5.InputLanguage.SMT_LIB_2_6, text, "q")
-        sm = parser.getSymbolManager()
-        while True:
-            cmd = parser.nextCommand()
-            if cmd.isNull():
-                break
-            out = cmd.invoke(slv, sm)
-            o = str(out).strip()
-            if o in ("sat", "unsat", "unknown"):
-                return o
+        here = os.path.dirname(os.path.abspath(__file__))
+        p = subprocess.run(
+            [sys.executable, os.path.join(here, "cvc5_run.py"), str(int(timeout_ms))],
+            input=text, capture_output=True, text=True, timeout=timeout_ms / 1000.0 + 10,
+        )
+        out = (p.stdout or "").strip().splitlines()
+        if "(error" in (p.stdout or "") or "(error" in (p.stderr or ""):
+            return "unknown"
+        for line in out:
+            if line.strip() in ("sat", "unsat"):
+                return line.strip()
         return "unknown"
     except Exception:
         return "unknown"
@@ -453,12 +646,24 @@ class Problem:
         ts, cs = out[: len(terms)], out[len(terms) :]
         return ts, cs
 
-    def base_conditions(self, extra_terms=()):
+    def base_conditions(self, extra_terms=(), raw=False):
         ts, cs = self._prepare(list(extra_terms))
         fr = self.fr
-        pairs = [fr.frac(t) for t in ts]
-        conds = [fr.cond(x) for x in cs]
         side = self.ab.side_conditions(fr, self.numeric_bounds)
+        sub = self.ab.reduce(fr)
+        if sub:
+            # resolve chains (a replacement may mention an app that was itself replaced later)
+            allt = tm.substitute(ts + cs + side, sub)
+            for _ in range(3):
+                allt = tm.substitute(allt, sub)
+            ts, cs, side = allt[: len(ts)], allt[len(ts) : len(ts) + len(cs)], allt[len(ts) + len(cs) :]
+        if raw:
+            for t in ts:
+                fr.nf(t)
+            pairs = ts
+        else:
+            pairs = [fr.frac(t) for t in ts]
+        conds = [fr.cond(x) for x in cs]
         side = [fr.cond(x) for x in side]
         dens = [tm.ne(d, c(0)) for d in fr.denominators()]
         pi = tm._TABLE.get(("v", "PI!", ()))
@@ -478,9 +683,8 @@ class Problem:
             STATS["unsat"] += 1
             STATS["identical"] = STATS.get("identical", 0) + 1
             return Result("unsat", None, 0.0, "identical-term")
-        (gn, gd), (rn, rd) = self.base_conditions([got, ref])[0]
-        _, base = self.base_conditions([got, ref])
-        neq = tm.ne(tm.mul(gn, rd), tm.mul(rn, gd))
+        (g2, r2), base = self.base_conditions([got, ref], raw=True)
+        neq = self.fr.differs(g2, r2)
         return solve(base + [neq], timeout_ms, nice_vars=nice_vars)
 
     def differ_any(self, pairs, timeout_ms=10000, nice_vars=None):
@@ -492,11 +696,10 @@ class Problem:
             STATS["identical"] = STATS.get("identical", 0) + 1
             return Result("unsat", None, 0.0, "identical-term")
         flat = [t for p in pairs for t in p]
-        fr_pairs, base = self.base_conditions(flat)
+        ts, base = self.base_conditions(flat, raw=True)
         diffs = []
-        for i in range(0, len(fr_pairs), 2):
-            (gn, gd), (rn, rd) = fr_pairs[i], fr_pairs[i + 1]
-            diffs.append(tm.ne(tm.mul(gn, rd), tm.mul(rn, gd)))
+        for i in range(0, len(ts), 2):
+            diffs.append(self.fr.differs(ts[i], ts[i + 1]))
         return solve(base + [tm.or_(*diffs)], timeout_ms, nice_vars=nice_vars)
 
     def holds(self, cond, timeout_ms=10000, nice_vars=None):
